@@ -135,7 +135,7 @@ CHECKS.update({
 
 CHECKS.update({
  'C05': dict(engine="PYSYM", category="other",
-   text="Partial. Symbolic execution of the real constructors with every component a solver variable; z3 decides 'accepted <=> the invariants of the key type hold': ECC private scalars (every integer up to order_bits+8 bits and negatives: accepted iff 1 <= d < order, public point = d*G), public coordinates (P + i*p refused for every public key P of the abstract group, 7 curves), private/public match, RFC 8032 / RFC 7748 clamping of Ed25519/Ed448/Curve25519/Curve448 seeds bit for bit, the Montgomery low-order deny lists for EVERY x of the byte length (incl. non-reduced forms), and RSA.construct / DSA.construct consistency checking on ALL component tuples of reduced width (n=p*q, primes, e*d = 1 mod lcm(p-1,q-1), CRT coefficient, ranges, coprimality; p,q prime, q | p-1, g of order q, y = g^x).",
+   text="Partial. Symbolic execution of the real constructors with every component a solver variable; z3 decides 'accepted <=> the invariants of the key type hold': ECC private scalars (every integer up to order_bits+8 bits and negatives: accepted iff 1 <= d < order, public point = d*G), public coordinates (P + i*p refused for every public key P of the abstract group, 7 curves), private/public match, RFC 8032 / RFC 7748 clamping of Ed25519/Ed448/Curve25519/Curve448 seeds bit for bit, the Montgomery low-order deny lists for EVERY x of the byte length (incl. non-reduced forms), and RSA.construct (full tuples and public keys (n, e)) / DSA.construct consistency checking on ALL component tuples of reduced width (n=p*q, primes, e*d = 1 mod lcm(p-1,q-1), CRT coefficient, ranges, coprimality; p,q prime, q | p-1, g of order q, y = g^x).",
    note="Reduced width for RSA (p,q < 2^3, thorough 2^4) and DSA (p < 2^5); ElGamal (p < 2^3, thorough only) with the probabilistic primality test replaced by the exact table; EC group abstract with the range/reduction behaviour of each C new_point.  NOT decided: generate() loops and FIPS 186-4 margins, primality tests on real sizes, factor recovery from (n,e,d), the C on-curve computation for all coordinates (run on a list of concrete candidates only), import formats (C13 decides totality of the decoders; components go through the same constructors).",
    technique="bounded symbolic execution of the real Python (PYSYM) over an abstract EC group and reduced-width integers + z3"),
 })
